@@ -27,18 +27,24 @@ def differential(ctx, cases, encode, oracle_line=None, classify=None, shrink_can
     if oracle_line:
         for i, c in enumerate(cases):
             ol = oracle_line(c, impl[i])
-            if ol is not None:
-                olines.append(ol)
+            if ol is None:
+                continue
+            for l in ([ol] if isinstance(ol, str) else ol):
+                olines.append(l)
                 oidx.append(i)
     ores = ctx.model(olines) if olines else []
-    oracle = {i: r for i, r in zip(oidx, ores)}
+    oracle = {}
+    for i, r in zip(oidx, ores):
+        oracle[i] = oracle.get(i, True) and (r == "TRUE")
+    ctx.coverage["oracle_evaluations"] = ctx.coverage.get("oracle_evaluations", 0) + len(olines)
 
     def fails_oracle(c):
         out = ctx.impl([encode(c)])[0]
         ol = oracle_line(c, out) if oracle_line else None
         if ol is None:
             return False
-        return ctx.model([ol])[0] != "TRUE"
+        ols = [ol] if isinstance(ol, str) else ol
+        return any(r != "TRUE" for r in ctx.model(ols)) if ols else False
 
     def mismatches(c):
         l = encode(c)
@@ -58,7 +64,7 @@ def differential(ctx, cases, encode, oracle_line=None, classify=None, shrink_can
             for k in describe(c, impl[i]):
                 hist[k] += 1
     for i, c in enumerate(cases):
-        bad_oracle = i in oracle and oracle[i] != "TRUE"
+        bad_oracle = i in oracle and not oracle[i]
         bad_corr = impl[i] != model[i]
         if not bad_oracle and not bad_corr:
             continue
